@@ -165,6 +165,27 @@ def pretty_flaky(value, ctx):
     return 'FLAKY<%s>' % (value.k,)
 
 
+class ReprRaises:
+    """has a registered printer; its own __repr__ raises (something other than SyntaxError)"""
+
+    def __init__(self, k):
+        self.k = k
+
+    def __repr__(self):
+        raise RuntimeError('this object has no repr')
+
+    def __eq__(self, other):
+        return type(other) is ReprRaises and other.k == self.k
+
+    def __hash__(self):
+        return hash(self.k)
+
+
+@register_pretty(ReprRaises)
+def pretty_reprraises(value, ctx):
+    return 'RR<%s>' % (value.k,)
+
+
 class OpaqueObj:
     """no printer registered; repr is not a Python expression"""
 
